@@ -336,7 +336,7 @@ void ref_link_meta(rlink *l, int is_left, const char *client, int padding_mode, 
 	rtlv_put_str(&body, 0x01, client);
 	if (with_extra) {
 		rtlv_put_str(&body, 0x02, "machine");
-		rtlv_put_u64(&body, 0x03, 7);
+		rtlv_put_u64(&body, 0x03, 70007);   /* beyond one octet, and beyond the SDK's pool of small integers */
 		rtlv_put_u64(&body, 0x04, 1500000000000000ULL);
 	}
 	if (padding_mode == 1) {
